@@ -757,7 +757,11 @@ func runC15(c *Ctx) {
 				continue
 			}
 			o9c.Site(e.Site.Pos(), "refill called from %s", fname(e.From))
-			if !(e.From == run || isIn(e.From, run)) || e.Kind != "static" {
+			from := e.From
+			for from.Parent() != nil {
+				from = from.Parent() // a local closure of the run loop (refillIfDue := func() {…})
+			}
+			if !(from == run || isIn(from, run)) || e.Kind != "static" {
 				o9c.Fail(e.Site.Pos(), "the bucket is refilled from %s, outside the run loop: tokens are granted with the wrong configuration or unordered with the loop", fname(e.From))
 			}
 		}
